@@ -537,7 +537,7 @@ class FlowInterp(Interp):
                 self.learn(t, True, a)
                 self.learn(t, False, b)
                 return self.block(n.body, [a], fq) + self.block(n.orelse, [b], fq)
-            if isinstance(t, bool) and src(n.test) not in self.assume_false:
+            if isinstance(t, bool) and self.assumed_value(n.test) is None:
                 return self.block(n.body if t else n.orelse, [st], fq)
         if isinstance(n, ast.Assign) and len(n.targets) == 1 and isinstance(n.targets[0], ast.Name) and not isinstance(n.value, ast.Call):
             v = self.ev(n.value, st, fq)
